@@ -524,11 +524,22 @@ TEXT = {
           "back to the queue, an update drops only registered peers, the peer that stayed serves them (expired_request_goes_back, "
           "update_drops_only_registered, departed_peer_request_*). The p2p-net scenarios - incl. the family in which a peer leaves "
           "(disconnect with each reason / closed or reset connection / protocol error) at every stage while a request to it is in "
-          "flight - are replayed through the model by the driver (who is dropped, synced, stalled).",
+          "flight - are replayed through the model by the driver (who is dropped, synced, stalled). "
+          "Frames and datagrams (Props/C15Frame.lean): the RLPx frame reader / writer and the discovery packet decoder as total "
+          "functions over byte streams with the cryptography as a parameter - for every byte string: read(write m) = m with the "
+          "rest of the stream untouched, no bounds check can fail, nothing is delivered unless header MAC and frame MAC compared "
+          "equal, a delivered message is below 2^24 bytes, a strict prefix of a frame never yields a message, a changed MAC tag is "
+          "rejected with no premise and changed header / body bytes unless they carry the right tag (explicit premise), re-ordered "
+          "and replayed frames fail at the header when the tag separates MAC states (explicit premise), a rejection changes only "
+          "the offending connection's state; datagrams shorter than 98 bytes, with a wrong hash, an unknown type or an expired "
+          "request are refused before the table is touched, and a neighbors reply of at most maxNeighbors nodes is below 1280 "
+          "bytes; constants and the order of the checks are regenerated from the tree, and the real functions are replayed on raw "
+          "bytes through the model (streams frame-model, disc-model).",
   "design_ref": "§3 C15",
   "note": "Only the handler logic is proved. Survival on arbitrary bytes, allocation inside rlp, goroutine hygiene and liveness are "
-          "differential testing against the total model, not proof; the rlpx frame reader and the discovery packet decoder have "
-          "monitor-only mutation streams, no theorem (incl. the re-sealed families: inner bytes mutated first, hash/signature/MACs "
+          "differential testing against the total model, not proof; the rlpx frame reader and the discovery packet decoder are "
+          "proved around a PARAMETRIC cryptography (unforgeability of the MAC is a premise, never a theorem) and keep their "
+          "monitor-only mutation streams (incl. the re-sealed families: inner bytes mutated first, hash/signature/MACs "
           "recomputed with the sender's key, codec under recover and a live ListenUDP node that must keep answering). Liveness is a "
           "monitor: after every refused account block / momentum delivery the insert lock is free, an honest peer's block reaches "
           "the pool, an honest request is answered and the node produces its next momentum (class=stalled-*). Findings "
